@@ -450,6 +450,11 @@ func (h *harness) nextUpdate(w *world, l *logT, hd *heldT, ts *uint64) *opT {
 		switch h.r.Intn(3) {
 		case 0:
 			spec.idMode, spec.idOwner = "other", w.logs[1-indexOf(w.logs[:2], l)&1]
+			if h.r.Intn(2) == 0 {
+				// a genuine STH of the OTHER configured log (its id, its signature) sent to this log's endpoint
+				spec.signer = spec.idOwner
+				sc += ":other-logs-sth"
+			}
 		case 1:
 			spec.idMode = "random"
 		default: // the right id with one bit flipped somewhere
